@@ -22,6 +22,7 @@ SEEDS = ["127.0.0.1/32", "aaaa:0:0:bbbb::", "::ffff:1.2.3.4/100", "1:2:*", "f00d
 def build():
     hsrc = vc.harness_path("addr_h.cpp")
     stub = vc.harness_path("stubs_core.c")
+    nmax = vc.harness_path("ntopmax.c")
 
     def b_obj(out):
         vc._parallel([
@@ -40,15 +41,16 @@ def build():
         vc._parallel([
             gcc + [misc, "-o", os.path.join(out, "misc.o")],
             gcc + [common, "-o", os.path.join(out, "common.o")],
+            ["gcc"] + vc.DEFS + vc.inc_flags() + ["-w", "-c", nmax, "-o", os.path.join(out, "ntopmax.o")],
             clang + [misc, "-o", os.path.join(out, "misc_fz.o")],
             clang + [common, "-o", os.path.join(out, "common_fz.o")],
         ])
         o = lambda *n: [os.path.join(out, x) for x in n]
         vc._parallel([
-            ["g++", "-fsanitize=address,undefined", os.path.join(obj, "addr_h.o")] + o("misc.o", "common.o") + [os.path.join(obj, "stubs.o"), "-lrapidcheck", "-o", os.path.join(out, "addr_h")],
-            ["clang++", "-fsanitize=fuzzer,address,undefined", os.path.join(obj, "addr_fz.o")] + o("misc_fz.o", "common_fz.o") + [os.path.join(obj, "stubs.o"), "-o", os.path.join(out, "addr_fuzz")],
+            ["g++", "-fsanitize=address,undefined", os.path.join(obj, "addr_h.o")] + o("misc.o", "common.o", "ntopmax.o") + [os.path.join(obj, "stubs.o"), "-lrapidcheck", "-o", os.path.join(out, "addr_h")],
+            ["clang++", "-fsanitize=fuzzer,address,undefined", os.path.join(obj, "addr_fz.o")] + o("misc_fz.o", "common_fz.o", "ntopmax.o") + [os.path.join(obj, "stubs.o"), "-o", os.path.join(out, "addr_fuzz")],
         ])
-    d = vc.cached_build("addr-bin", vc.repo_sources() + [hsrc, stub], (CXX, SAN_MEM), b_bin)
+    d = vc.cached_build("addr-bin", vc.repo_sources() + [hsrc, stub, nmax], (CXX, SAN_MEM), b_bin)
     return os.path.join(d, "addr_h"), os.path.join(d, "addr_fuzz")
 
 
